@@ -278,6 +278,13 @@ pub fn intermediate_packet() -> Vec<u8> {
     vec![0x04, 0xff, 0x02, 0x17, 0x00]
 }
 pub const ACK: [u8; 3] = [0x80, 0x00, 0x00];
+/// a print line and a print text block (receipt chatter a terminal may interleave)
+pub fn chatter_packets(t: &Table) -> Vec<Vec<u8>> {
+    let lines = make(t, "tlv.TextLines", &[("lines", Val::List(vec![Val::S("RECEIPT".into()), Val::S("".into()), Val::S("TOTAL 1,00".into())])), ("eol", opt_u(Some(255)))]);
+    let ptb = make(t, "tlv.PrintTextBlock", &[("receipt_type", opt_u(Some(2))), ("lines", Val::Some(Box::new(lines)))]);
+    let p = make(t, "PrintTextBlock", &[("tlv", Val::Some(Box::new(ptb)))]);
+    vec![vec![0x06, 0xd1, 0x06, 0x40, b'H', b'e', b'l', b'l', b'o'], enc(t, "PrintTextBlock", &p)]
+}
 
 pub fn classify(t: &Table, apdu: &[u8]) -> Kind {
     if apdu.len() < 3 {
@@ -335,7 +342,8 @@ fn respond(g: &mut Sim, kind: Kind, apdu: &[u8], d: &Directive) -> Vec<Vec<u8>> 
             r.push(intermediate_packet());
         }
     }
-    if matches!(kind, Kind::Init | Kind::EndOfDay) {
+    if matches!(kind, Kind::Init | Kind::EndOfDay | Kind::Reservation | Kind::PartialReversal | Kind::PreAuthReversal) {
+        // print lines / text blocks are part of these commands' reply sets
         r.extend(g.chatter.iter().cloned());
     }
     if let Outcome::Abort(c) = d.outcome {
